@@ -221,6 +221,12 @@ def run_case(case):
         plain = PlainName()
 
         def provider(obj, attr, obj_ref):
+            if case.get("postpone_bad") and obj_ref.obj_name == "zz9":
+                # a provider that never resolves this name: the load must end with
+                # "Unresolvable cross references" and no object processor may run
+                from textx.scoping import Postponed
+                run.events.append({"k": "resolve", "attr": attr.name, "name": obj_ref.obj_name, "found": False})
+                return Postponed()
             res = plain(obj, attr, obj_ref)
             run.events.append({"k": "resolve", "attr": attr.name, "name": obj_ref.obj_name,
                                "found": res is not None and type(res).__name__ != "Postponed"})
